@@ -47,12 +47,72 @@ def run(ctx):
               'refused pub/sub call has already taken effect', floor=7)
 
 
+class _GetToIndex(ast.NodeTransformer):
+    """matching form of the listener map accesses: `self.F.get(k)` reads `self.F[k]`; `self.F[k] is None` tests `k not in self.F`;
+    the statement `self.F.pop(k, None)` is `if k in self.F: del self.F[k]`"""
+
+    def __init__(self, F):
+        self.F = F
+
+    def visit_Call(self, node):
+        self.generic_visit(node)
+        if isinstance(node.func, ast.Attribute) and node.func.attr == 'get' and is_self_attr(node.func.value, self.F) and len(node.args) == 1 and not node.keywords:
+            return ast.copy_location(ast.Subscript(value=node.func.value, slice=node.args[0], ctx=ast.Load()), node)
+        return node
+
+    def visit_Compare(self, node):
+        self.generic_visit(node)
+        if len(node.ops) == 1 and isinstance(node.ops[0], (ast.Is, ast.IsNot, ast.Eq, ast.NotEq)) and isinstance(node.comparators[0], ast.Constant) \
+                and node.comparators[0].value is None and isinstance(node.left, ast.Subscript) and is_self_attr(node.left.value, self.F):
+            absent = isinstance(node.ops[0], (ast.Is, ast.Eq))
+            return ast.copy_location(ast.Compare(left=node.left.slice, ops=[ast.NotIn() if absent else ast.In()], comparators=[node.left.value]), node)
+        return node
+
+    def visit_Expr(self, node):
+        self.generic_visit(node)
+        c = node.value
+        if isinstance(c, ast.Call) and isinstance(c.func, ast.Attribute) and c.func.attr == 'pop' and is_self_attr(c.func.value, self.F) and len(c.args) == 2 \
+                and isinstance(c.args[1], ast.Constant) and c.args[1].value is None:
+            key = c.args[0]
+            d = ast.Delete(targets=[ast.Subscript(value=c.func.value, slice=key, ctx=ast.Del())])
+            new = ast.If(test=ast.Compare(left=key, ops=[ast.In()], comparators=[c.func.value]), body=[ast.copy_location(d, node)], orelse=[])
+            return ast.fix_missing_locations(ast.copy_location(new, node))
+        return node
+
+
+def _canon_producer(prog, F):
+    ci = prog.cls(P)
+    if getattr(ci, '_pdsa_canon_done', False):
+        return
+    for fn in list(ci.methods.values()):
+        _GetToIndex(F).visit(fn)
+        ast.fix_missing_locations(fn)
+    ci._pdsa_canon_done = True
+
+
 def listeners_field(prog):
+    F = _listeners_field(prog)
+    _canon_producer(prog, F)
+    return F
+
+
+def _listeners_field(prog):
     init = prog.method(P, '__init__', inherited=False)
     fields = [t.attr for n in walk_shallow(init) if isinstance(n, (ast.Assign, ast.AnnAssign))
               for t in (n.targets if isinstance(n, ast.Assign) else [n.target]) if is_self_attr(t)]
+    fields = sorted(set(fields))
     if len(fields) != 1:
-        raise AnalysisError(f'anchor vanished: EventProducer.__init__ assigns {fields}, expected exactly the listener map')
+        # several fields: the listener map is the one add_listener inserts into (`self.F[event_type]....append / = [..]`)
+        add = prog.method(P, 'add_listener', inherited=False)
+        used = set()
+        for n in walk_shallow(add):
+            if isinstance(n, ast.Subscript) and is_self_attr(n.value) and n.value.attr in fields:
+                used.add(n.value.attr)
+            if isinstance(n, ast.Call) and isinstance(n.func, ast.Attribute) and n.func.attr == 'setdefault' and is_self_attr(n.func.value) and n.func.value.attr in fields:
+                used.add(n.func.value.attr)
+        if len(used) != 1:
+            raise AnalysisError(f'anchor vanished: EventProducer.__init__ assigns {fields}; cannot tell which one is the listener map')
+        return used.pop()
     return fields[0]
 
 
@@ -65,6 +125,192 @@ def copy_of(expr):
     if isinstance(expr, ast.Subscript) and isinstance(expr.slice, ast.Slice) and expr.slice.lower is None and expr.slice.upper is None and expr.slice.step is None:
         return 'slice', expr.value
     return None, expr
+
+
+# --------------------------------------------------------------------------- memoised copies of the listener lists
+LIST_MUT = ('append', 'extend', 'insert', 'remove', 'pop', 'clear', 'sort', 'reverse')
+DICT_MUT = ('pop', 'popitem', 'clear', 'update')
+
+
+def _key_of_listener_expr(e, F):
+    """K for `self.F[K]`, `self.F.get(K[, d])`, `self.F.setdefault(K, d)`; None otherwise"""
+    if isinstance(e, ast.Subscript) and is_self_attr(e.value, F):
+        return unparse(e.slice)
+    if isinstance(e, ast.Call) and isinstance(e.func, ast.Attribute) and e.func.attr in ('get', 'setdefault') and is_self_attr(e.func.value, F) and e.args:
+        return unparse(e.args[0])
+    return None
+
+
+def memo_snapshot(ctx, prog, fn, loop, F, param):
+    """The delivery loop iterates a local S with
+           S = self.C.get(K);  if S is None: S = <copy of self.F[K]>;  self.C[K] = S      (K = <param>.event_type)
+    i.e. a copy of the listener list that is kept per event type until the list changes.  That is as good as a fresh copy iff
+      (a) C starts empty and is filled only here, with the copy just made, before anything else can run (no call in between);
+      (b) every change of a listener list -- in any method of any class -- is followed on every normal path, before any
+          notification, by dropping C's entry for the same key (or all entries);
+      (c) nothing changes the stored copies in place.
+    Returns (base text of the copied list or None, [problems]); None when the loop is not of this form."""
+    if not isinstance(loop.iter, ast.Name):
+        return None
+    S = loop.iter.id
+    defs = [a for a in walk_shallow(fn) if isinstance(a, (ast.Assign, ast.AnnAssign)) and getattr(a, 'value', None) is not None
+            and any(isinstance(t, ast.Name) and t.id == S for t in (a.targets if isinstance(a, ast.Assign) else [a.target]))]
+    if len(defs) != 2:
+        return None
+    lookup = [a for a in defs if isinstance(a.value, (ast.Call, ast.Subscript)) and not copy_of(a.value)[0]]
+    copies = [a for a in defs if copy_of(a.value)[0]]
+    if len(lookup) != 1 or len(copies) != 1:
+        return None
+    lk = lookup[0].value
+    C = K = None
+    if isinstance(lk, ast.Call) and isinstance(lk.func, ast.Attribute) and lk.func.attr == 'get' and is_self_attr(lk.func.value) and len(lk.args) in (1, 2) \
+            and (len(lk.args) == 1 or (isinstance(lk.args[1], ast.Constant) and lk.args[1].value is None)):
+        C, K = lk.func.value.attr, unparse(lk.args[0])
+    if C is None or C == F:
+        return None
+    problems = []
+    g = CFG(fn)
+    form, base = copy_of(copies[0].value)
+    bt = unparse(base)
+    if _key_of_listener_expr(base, F) != K:
+        problems.append(f'the memoised copy under key `{K}` is made from `{bt}`, another list')
+    # the copy is made exactly when the lookup found nothing
+    cn = g.node_for(copies[0])
+    guards = [(unparse(c.ast), br) for (c, br) in g.guard_branches(cn)]
+    if not any((t in (f'{S} is None', f'{S} == None') and br) or (t in (f'{S} is not None', f'{S} != None', S) and not br) or (t == f'not {S}' and br) for (t, br) in guards):
+        problems.append(f'the copy `{short(copies[0], 50)}` is not made exactly when `self.{C}.get({K})` found nothing')
+    # (a) stores into C
+    cls_methods = []
+    for cname, ci in prog.classes.items():
+        if prog.is_subclass(cname, P):
+            for mname, f2 in list(ci.methods.items()) + list(ci.setters.items()):
+                cls_methods.append((cname, mname, f2))
+    nstores = 0
+    for (cname, mname, f2) in cls_methods:
+        g2 = None
+        for st in walk_shallow(f2):
+            if isinstance(st, (ast.Assign, ast.AnnAssign, ast.AugAssign)):
+                for t in (st.targets if isinstance(st, ast.Assign) else [st.target]):
+                    if isinstance(t, ast.Subscript) and is_self_attr(t.value, C):
+                        nstores += 1
+                        okst = isinstance(st, ast.Assign) and isinstance(st.value, ast.Name)
+                        if okst:
+                            # the stored value is the copy of the list of the same key, made by the statement just before
+                            cps = [a for a in walk_shallow(f2) if isinstance(a, (ast.Assign, ast.AnnAssign)) and getattr(a, 'value', None) is not None
+                                   and any(isinstance(t2, ast.Name) and t2.id == st.value.id for t2 in (a.targets if isinstance(a, ast.Assign) else [a.target]))
+                                   and copy_of(a.value)[0] and _key_of_listener_expr(copy_of(a.value)[1], F) == unparse(t.slice)]
+                            g2 = g2 or CFG(f2)
+                            sn = g2.node_for(st)
+                            preds = [p_ for (p_, lab) in sn.pred if lab != 'exc']
+                            okst = len(cps) == 1 and len(preds) == 1 and preds[0] is g2.node_for(cps[0])
+                        if not okst:
+                            problems.append(f'`{short(st, 60)}` in {cname}.{mname} stores into the memo `{C}` something other than the copy just made, or not '
+                                            f'directly after making it: whatever ran in between (a notified listener subscribing or unsubscribing) makes the stored copy stale, '
+                                            f'and later fires deliver to the wrong set of listeners')
+                    elif is_self_attr(t, C) and mname != '__init__':
+                        v = getattr(st, 'value', None)
+                        if not (isinstance(v, ast.Dict) and not v.keys) and not (isinstance(v, ast.Call) and unparse(v.func) == 'dict' and not v.args and not v.keywords):
+                            problems.append(f'`{short(st, 60)}` in {cname}.{mname} re-binds the memo `{C}` to something that is not empty')
+    if nstores == 0:
+        problems.append(f'the memo `{C}` is never filled')
+    # (c) stored copies are never changed in place
+    for (cname, mname, f2) in cls_methods:
+        for x in walk_shallow(f2):
+            if isinstance(x, ast.Call) and isinstance(x.func, ast.Attribute) and x.func.attr in LIST_MUT:
+                r = x.func.value
+                if (isinstance(r, ast.Subscript) and is_self_attr(r.value, C)) or \
+                        (isinstance(r, ast.Call) and isinstance(r.func, ast.Attribute) and r.func.attr == 'get' and is_self_attr(r.func.value, C)):
+                    problems.append(f'`{short(x, 50)}` in {cname}.{mname} changes a memoised copy in place')
+    # (b) every change of a listener list drops the memo entry
+    nmut = 0
+    for (cname, mname, f2) in cls_methods:
+        if mname == '__init__':
+            continue
+        g2 = CFG(f2)
+        alias = {}
+        for a in walk_shallow(f2):
+            if isinstance(a, (ast.Assign, ast.AnnAssign)) and getattr(a, 'value', None) is not None:
+                k_ = _key_of_listener_expr(a.value, F)
+                for t in (a.targets if isinstance(a, ast.Assign) else [a.target]):
+                    if isinstance(t, ast.Name) and k_ is not None:
+                        alias[t.id] = k_
+        muts = []      # (node, key or '*')
+        invs = []
+        for nd in g2.stmt_nodes():
+            if nd.ast is None:
+                continue
+            a_ = nd.ast
+            roots = [a_.test] if isinstance(a_, (ast.If, ast.While)) else [a_.iter] if isinstance(a_, ast.For) else [a_]
+            for root in roots:
+                for x in ([root] + list(walk_shallow(root)) if not isinstance(root, ast.stmt) else walk_shallow(root)):
+                    if isinstance(x, ast.Call) and isinstance(x.func, ast.Attribute):
+                        r = x.func.value
+                        m_ = x.func.attr
+                        if m_ in LIST_MUT:
+                            k_ = _key_of_listener_expr(r, F)
+                            if k_ is None and isinstance(r, ast.Name) and r.id in alias:
+                                k_ = alias[r.id]
+                            if k_ is not None:
+                                muts.append((nd, k_, x))
+                        if is_self_attr(r, F) and m_ in DICT_MUT:
+                            muts.append((nd, unparse(x.args[0]) if (m_ == 'pop' and x.args) else '*', x))
+                        if is_self_attr(r, C) and m_ in ('pop', 'clear'):
+                            invs.append((nd, unparse(x.args[0]) if (m_ == 'pop' and x.args) else '*'))
+                    elif isinstance(x, ast.Subscript) and isinstance(x.ctx, (ast.Store, ast.Del)):
+                        if is_self_attr(x.value, F):
+                            # creating the (empty) list of a key that has none cannot make a copy stale
+                            fresh_key = isinstance(x.ctx, ast.Store) and any(
+                                (unparse(c.ast) in (f'{unparse(x.slice)} not in self.{F}', f'not {unparse(x.slice)} in self.{F}') and br) or
+                                (unparse(c.ast) == f'{unparse(x.slice)} in self.{F}' and not br) for (c, br) in g2.guard_branches(nd))
+                            if not fresh_key:
+                                muts.append((nd, unparse(x.slice), x))
+                        elif is_self_attr(x.value, C) and isinstance(x.ctx, ast.Del):
+                            invs.append((nd, unparse(x.slice)))
+                        elif isinstance(x.value, ast.Subscript) and is_self_attr(x.value.value, F):
+                            muts.append((nd, unparse(x.value.slice), x))
+                    elif isinstance(x, ast.Attribute) and isinstance(x.ctx, ast.Store) and is_self_attr(x, F):
+                        muts.append((nd, '*', x))
+                    elif isinstance(x, ast.Attribute) and isinstance(x.ctx, ast.Store) and is_self_attr(x, C):
+                        invs.append((nd, '*'))
+        ext = [nd for nd in g2.stmt_nodes() if nd.ast is not None and any(
+            isinstance(c, ast.Call) and isinstance(c.func, ast.Attribute) and (c.func.attr == 'notify' or (is_self_attr(c.func) and c.func.attr.startswith('fire')))
+            for c in walk_shallow(nd.ast))]
+        for (nd, k_, x) in muts:
+            nmut += 1
+            good = [i for (i, ki) in invs if ki == '*' or ki == k_]
+            good = [i for i in good if i is not nd] or good
+            skipped = nd is not None and g2.reaches(nd, g2.exit, avoid=[i for i in good if i is not nd], labels_excluded=('exc', 'raise', 'reraise')) \
+                and not any(i is nd for i in good)
+            early = any(e_ is not nd and g2.reaches(nd, e_, avoid=good) for e_ in ext)
+            if good and (skipped or early):
+                # dropped just before the change instead: as good, provided nothing is notified between the two
+                before = [i for i in good if i is not nd and g2.dominates(i, nd)]
+                if before and not any(g2.reaches(i, e_) and g2.reaches(e_, nd) for i in before for e_ in ext if e_ is not i and e_ is not nd) \
+                        and not any(e_ is not nd and g2.reaches(nd, e_) and False for e_ in ext):
+                    skipped = early = False
+            if not good or skipped or early:
+                problems.append(f'`{short(x, 50)}` in {cname}.{mname} changes the listener list of `{k_}` but the memoised copy `self.{C}[{k_}]` is '
+                                + ('never dropped' if not good else 'not dropped on every path' if skipped else 'dropped only after a notification')
+                                + ': the next fire delivers to the old set of listeners')
+    ctx.sample(f'R8.1: {P}.{fn.name} iterates a memoised copy `self.{C}[{K}]` of `{bt}`: {nstores} store(s), {nmut} list changes each followed by dropping the entry')
+    return base, problems
+
+
+def memo_fields(prog, F):
+    """names of the fields used as memo of listener-list copies by the delivery loops (their upkeep is decided by R8.1)"""
+    out = set()
+    ci = prog.cls(P)
+    for fn in ci.methods.values():
+        for loop in [x for x in walk_shallow(fn) if isinstance(x, ast.For) and isinstance(x.iter, ast.Name)]:
+            if not any(isinstance(c, ast.Call) and isinstance(c.func, ast.Attribute) and c.func.attr == 'notify' for b in loop.body for c in ast.walk(b)):
+                continue
+            for a in walk_shallow(fn):
+                if isinstance(a, (ast.Assign, ast.AnnAssign)) and getattr(a, 'value', None) is not None \
+                        and any(isinstance(t, ast.Name) and t.id == loop.iter.id for t in (a.targets if isinstance(a, ast.Assign) else [a.target])):
+                    v = a.value
+                    if isinstance(v, ast.Call) and isinstance(v.func, ast.Attribute) and v.func.attr == 'get' and is_self_attr(v.func.value) and v.func.value.attr != F:
+                        out.add(v.func.value.attr)
+    return out
 
 
 def r81(ctx):
@@ -85,6 +331,10 @@ def r81(ctx):
                 problems.append('delivery loop is not a for-loop over the listener list')
             else:
                 form, base = copy_of(loop.iter)
+                memo = memo_snapshot(ctx, prog, fn, loop, F, param) if form is None else None
+                if memo is not None:
+                    form, base = 'memo', memo[0]
+                    problems += memo[1]
                 if form is None:
                     problems.append(f'iterates `{short(loop.iter, 50)}` directly, not a copy: a listener that (un)subscribes during notify makes the loop skip or repeat listeners')
                 bt = unparse(base)
@@ -135,16 +385,31 @@ def r82(ctx):
     n = 0
     for fn in ci.methods.values():
         g = None
+        # `subs = self.F.setdefault(key, [])` / `subs = self.F[key]` name the list registered under key
+        list_locals = {}
+        for a in walk_shallow(fn):
+            if isinstance(a, ast.Assign) and len(a.targets) == 1 and isinstance(a.targets[0], ast.Name):
+                v = a.value
+                if isinstance(v, ast.Subscript) and is_self_attr(v.value, F):
+                    list_locals[a.targets[0].id] = unparse(v)
+                elif isinstance(v, ast.Call) and isinstance(v.func, ast.Attribute) and v.func.attr == 'setdefault' and is_self_attr(v.func.value, F) \
+                        and len(v.args) == 2 and isinstance(v.args[1], ast.List) and not v.args[1].elts:
+                    list_locals[a.targets[0].id] = f'self.{F}[{unparse(v.args[0])}]'
         for c in walk_shallow(fn):
-            if isinstance(c, ast.Call) and isinstance(c.func, ast.Attribute) and c.func.attr in ('append', 'insert', 'extend', 'add') \
-                    and isinstance(c.func.value, ast.Subscript) and is_self_attr(c.func.value.value, F):
+            recv_ok = isinstance(c, ast.Call) and isinstance(c.func, ast.Attribute) and c.func.attr in ('append', 'insert', 'extend', 'add') and (
+                (isinstance(c.func.value, ast.Subscript) and is_self_attr(c.func.value.value, F))
+                or (isinstance(c.func.value, ast.Name) and c.func.value.id in list_locals))
+            if recv_ok:
                 n += 1
                 g = g or CFG(fn)
                 node = _node_containing(g, c)
                 lst = unparse(c.func.value)
+                alias = list_locals.get(lst)
                 arg = unparse(c.args[-1]) if c.args else '?'
+                names = [lst] + ([alias] if alias else [])
                 ok = c.func.attr == 'append' and any(
-                    (unparse(cn.ast) in (f'{arg} not in {lst}', f'not {arg} in {lst}') and br) or (unparse(cn.ast) == f'{arg} in {lst}' and not br)
+                    (unparse(cn.ast) in [f'{arg} not in {l_}' for l_ in names] + [f'not {arg} in {l_}' for l_ in names] and br)
+                    or (unparse(cn.ast) in [f'{arg} in {l_}' for l_ in names] and not br)
                     for (cn, br) in g.guard_branches(node, atoms=True))
                 ctx.ob('R8.2', f'{P}.{fn.name}:append', ok, sample=f'{P}.{fn.name}: {short(c)} guarded by not-in test: {ok}')
                 if not ok:
@@ -254,6 +519,7 @@ def r83(ctx):
     if not ok:
         ctx.finding('R8.3', f'{P}.has_listeners', ci, hl, 'has_listeners is not `len(listeners) > 0`', where=f'{P}.has_listeners')
     # remove_all_listeners: 4-way split
+    MEMO = memo_fields(prog, F)
     ra = prog.method(P, 'remove_all_listeners', inherited=False)
     pe, pl = ra.args.args[1].arg, ra.args.args[2].arg
     want = {(True, True): 'clear-all', (True, False): 'per-type-remove-listener', (False, True): 'delete-type', (False, False): 'remove-one'}
@@ -296,6 +562,9 @@ def r83(ctx):
                         acts.append('clear-all')
                     elif t == f'self.remove_listener({pe}, {pl})':
                         acts.append('remove-one')
+                    elif isinstance(s.value.func, ast.Attribute) and is_self_attr(s.value.func.value) and s.value.func.value.attr in MEMO \
+                            and s.value.func.attr in ('pop', 'clear'):
+                        pass                      # dropping memoised copies of the listener lists: not an action on the subscriptions (R8.1 decides the memo)
                     else:
                         acts.append('call:' + t[:40])
                 elif isinstance(s, ast.Assign) and any(is_self_attr(t, F) for t in s.targets):
